@@ -48,7 +48,11 @@ func (f *MultipleValueList) Call(s *slip.Scope, args slip.List, depth int) (resu
 	}
 	v := s.Eval(form, d2)
 	if vs, ok := v.(slip.Values); ok {
-		result = slip.List(vs)
+		// A new list, the values can be the elements of a list the caller
+		// still holds as with (multiple-value-list (values-list x)).
+		list := make(slip.List, len(vs))
+		copy(list, vs)
+		result = list
 	} else {
 		result = slip.List{v}
 	}
